@@ -1240,7 +1240,9 @@ fn tempfile() -> std::fs::File {
 fn load_state_like_master(file: &mut std::fs::File) -> (ConfigState, usize, Option<String>) {
     let mut state = ConfigState::new();
     let mut errs = 0;
-    let mut buffer = Buffer::with_capacity(200000);
+    // same sizing as bin/src/command/requests.rs load_state (checked by the translator)
+    let cap = std::cmp::max(200_000, (sozu_command_lib::config::DEFAULT_MAX_COMMAND_BUFFER_SIZE as usize).saturating_mul(2));
+    let mut buffer = Buffer::with_capacity(cap);
     let status: Result<(), String> = loop {
         let previous = buffer.available_data();
         match file.read(buffer.space()) {
@@ -1428,7 +1430,7 @@ pub fn run(cx: &Ctx, case: &Case, out: &mut Out, mode: Mode) {
                 out.obs(&[tn(accepted as i128), tn(wrote as i128), tn(loaded as i128), tn(blob_ok as i128), tn(client_ok as i128), tn(state_ok as i128), tn(worker_res.is_ok() as i128)]);
                 if mode == Mode::C05 {
                     if accepted && wrote && !loaded {
-                        out.viol("limit-statefile-record", &format!("a 250000-byte request accepted by dispatch is written by write_requests_to_file but the load_state loop (200000-byte buffer) cannot read it back: {}", msg.unwrap_or_default()));
+                        out.viol("limit-statefile-record", &format!("a 250000-byte request accepted by dispatch is written by write_requests_to_file but the load_state loop cannot read it back: {}", msg.unwrap_or_default()));
                     }
                     if !blob_ok {
                         out.viol("limit-bootstrap-blob", "the protobuf bootstrap blob of a state with a 250000-byte request does not read back");
